@@ -363,4 +363,5 @@ ANCHORS = {
     'overflow_page_table': ['^babylon::LogStreamBuffer(<|$)'],
     'pages': ['^babylon::LogEntry(<|$)', '^babylon::LogEntry::PageTable(<|$)'],
     'pages_append_to_iovec': ['^babylon::LogEntry(<|$)'],
+    'write_use_plain_writev': ['^babylon::AsyncFileAppender(<|$)'],
 }
